@@ -7,6 +7,7 @@ broadcast use {ax::axiom_string_eq_spec, ax::axiom_string_obeys_eq, ax::axiom_st
 //@include regions/op_types.rs
 pub type VersionId = Uuid;
 //@include regions/storage_trait.rs
+//@include vocab/ws_trim_lemmas.rs
 //@include vocab/workingset.rs
 //@include regions/rebuild_impl.rs
 //@include prelude/tail.rs
